@@ -232,6 +232,22 @@ class Interp(AutoEvaluator):
     def stores_of(self, arr=None):
         return [e for e in self.events if e["kind"] == "store" and (arr is None or e["arr"] == arr)]
 
+    def known_equal(self, a, b):
+        """same value, or equal by the guards passed so far (`if a != b: raise`)"""
+        if same(a, b):
+            return True
+        cls = [a]
+        grew = True
+        pairs = [p for g, _ in self.guards for p in g]
+        while grew:
+            grew = False
+            for x, y in pairs:
+                for u, w in ((x, y), (y, x)):
+                    if any(same(u, c) for c in cls) and not any(same(w, c) for c in cls):
+                        cls.append(w)
+                        grew = True
+        return any(same(b, c) for c in cls)
+
     def arr_of(self, v):
         n = one_sym(v)
         if n and n.startswith("@"):
@@ -594,8 +610,10 @@ class Interp(AutoEvaluator):
                 sps = [self._iter_spec(a) for a in it.args]
                 if all(s[0] == "unroll" for s in sps):
                     return ("unroll", [tuple(x) for x in zip(*[s[1] for s in sps])])
-                if all(s[0] == "sym" for s in sps) and all(same(s[1], sps[0][1]) for s in sps):
-                    return ("sym", sps[0][1], lambda i, fs=[s[2] for s in sps]: tuple(f(i) for f in fs))
+                if all(s[0] == "sym" for s in sps):
+                    # zip stops with the shortest operand: one trip count when the lengths are the same value or were checked equal by a guard
+                    dom = sps[0][1] if all(self.known_equal(s[1], sps[0][1]) for s in sps) else F.fn("min", *sorted((s[1] for s in sps), key=repr))
+                    return ("sym", dom, lambda i, fs=[s[2] for s in sps]: tuple(f(i) for f in fs))
                 raise Unsupported("zip of sequences of different kinds")
         v = self._ev(it)
         if isinstance(v, tuple):
